@@ -13,6 +13,7 @@ use crate::tree::method::Method;
 use crate::tree::module::Module;
 use crate::tree::record::RecordComponent;
 use crate::tree::type_annotation::{TargetInfoClass, TargetInfoCode, TargetInfoField, TargetInfoMethod, TypeAnnotation, TypePath, TypePathKind};
+use crate::visitor::method::code::{StackMapData, VerificationTypeInfo};
 
 mod pool;
 mod labels;
@@ -1080,6 +1081,7 @@ fn write_code<'a, 'b: 'a>(writer: &mut impl ClassWrite, code: &'b Code, pool: &m
 				wide.insert(unwritten.instruction_index);
 
 				labels.next_attempt();
+				frames.clear();
 				w = Vec::with_capacity(w.len());
 				continue 'a;
 			}
@@ -1110,7 +1112,67 @@ fn write_code<'a, 'b: 'a>(writer: &mut impl ClassWrite, code: &'b Code, pool: &m
 	let mut buffer = Vec::new();
 
 	if !frames.is_empty() {
-		// TODO: write stack map table
+		attribute_count += 1;
+		write_attribute(&mut buffer, pool, attribute::STACK_MAP_TABLE, |w, pool| {
+			w.write_usize_as_u16(frames.len()).context("too many stack map frames")?;
+			// The first frame stores its bytecode offset, every other frame the distance to the frame before it, minus one.
+			let mut previous: Option<u16> = None;
+			for &(offset, frame) in &frames {
+				let offset_delta = match previous {
+					None => offset,
+					Some(previous) => offset.checked_sub(previous).and_then(|x| x.checked_sub(1))
+						.with_context(|| anyhow!("stack map frame at bytecode offset {offset} is not after the one at {previous}"))?,
+				};
+				previous = Some(offset);
+				// The short forms store an `offset_delta` of less than 64 in the frame type.
+				let short = u8::try_from(offset_delta).ok().filter(|&x| x < 64);
+				match frame {
+					StackMapData::Same => {
+						if let Some(offset_delta) = short {
+							w.write_u8(offset_delta)?;
+						} else {
+							w.write_u8(251)?;
+							w.write_u16(offset_delta)?;
+						}
+					},
+					StackMapData::SameLocals1StackItem { stack } => {
+						if let Some(offset_delta) = short {
+							w.write_u8(64 + offset_delta)?;
+						} else {
+							w.write_u8(247)?;
+							w.write_u16(offset_delta)?;
+						}
+						write_verification_type_info(w, pool, &labels, stack)?;
+					},
+					&StackMapData::Chop { k } => {
+						if !(1..=3).contains(&k) { bail!("a chop frame must remove one to three locals, got {k}"); }
+						w.write_u8(251 - k)?;
+						w.write_u16(offset_delta)?;
+					},
+					StackMapData::Append { locals } => {
+						if !(1..=3).contains(&locals.len()) { bail!("an append frame must add one to three locals, got {}", locals.len()); }
+						w.write_u8(251 + locals.len() as u8)?;
+						w.write_u16(offset_delta)?;
+						for local in locals {
+							write_verification_type_info(w, pool, &labels, local)?;
+						}
+					},
+					StackMapData::Full { locals, stack } => {
+						w.write_u8(255)?;
+						w.write_u16(offset_delta)?;
+						w.write_slice(locals,
+							|w, len| w.write_usize_as_u16(len).context("too many locals in stack map frame"),
+							|w, local| write_verification_type_info(w, pool, &labels, local)
+						)?;
+						w.write_slice(stack,
+							|w, len| w.write_usize_as_u16(len).context("too many stack items in stack map frame"),
+							|w, item| write_verification_type_info(w, pool, &labels, item)
+						)?;
+					},
+				}
+			}
+			Ok(())
+		})?;
 	}
 
 	if let Some(line_number_table) = &code.line_numbers {
@@ -1195,6 +1257,26 @@ fn write_code<'a, 'b: 'a>(writer: &mut impl ClassWrite, code: &'b Code, pool: &m
 	writer.write_u8_slice(&buffer)?;
 
 	Ok(())
+}
+
+fn write_verification_type_info<'a: 'b, 'b>(writer: &mut impl ClassWrite, pool: &mut PoolWrite<'b>, labels: &Labels, info: &'a VerificationTypeInfo) -> Result<()> {
+	match info {
+		VerificationTypeInfo::Top => writer.write_u8(0),
+		VerificationTypeInfo::Integer => writer.write_u8(1),
+		VerificationTypeInfo::Float => writer.write_u8(2),
+		VerificationTypeInfo::Double => writer.write_u8(3),
+		VerificationTypeInfo::Long => writer.write_u8(4),
+		VerificationTypeInfo::Null => writer.write_u8(5),
+		VerificationTypeInfo::UninitializedThis => writer.write_u8(6),
+		VerificationTypeInfo::Object(class) => {
+			writer.write_u8(7)?;
+			writer.write_u16(pool.put_class(class)?)
+		},
+		VerificationTypeInfo::Uninitialized(label) => {
+			writer.write_u8(8)?;
+			writer.write_u16(labels.try_get(label)?)
+		},
+	}
 }
 
 fn write_record_component<'a: 'b, 'b>(writer: &mut impl ClassWrite, record_component: &'a RecordComponent, pool: &mut PoolWrite<'b>) -> Result<()> {
